@@ -3,9 +3,9 @@ from harness import core
 from harness.props import sqlcommon as SC
 
 PID = 'C03'
-THEOREMS = ['PyDBML.C03.read_render_script_ix', 'PyDBML.C03.read_render_script_all', 'PyDBML.C04.read_render_index', 'PyDBML.C03.read_render_enum', 'PyDBML.C03.read_render_script', 'PyDBML.C03.read_render_table', 'PyDBML.C03.read_render_column', 'PyDBML.C03.same_ddl_same_content',
+THEOREMS = ['PyDBML.C04.read_render_comment_table', 'PyDBML.C04.read_render_comment_column', 'PyDBML.C03.read_render_script_ix', 'PyDBML.C03.read_render_script_all', 'PyDBML.C04.read_render_index', 'PyDBML.C03.read_render_enum', 'PyDBML.C03.read_render_script', 'PyDBML.C03.read_render_table', 'PyDBML.C03.read_render_column', 'PyDBML.C03.same_ddl_same_content',
             'PyDBML.C03.script_structure', 'PyDBML.C03.column_pk_component', 'PyDBML.C03.default_component', 'PyDBML.C15.sql_column_ignores_props']
-MODULES = ['PyDBMLProofs.Props.C03', 'PyDBMLProofs.Props.C03Read', 'PyDBMLProofs.Props.C04Read', 'PyDBMLProofs.Props.C03Script', 'PyDBMLProofs.Props.C03Index', 'PyDBMLProofs.Props.C03ScriptIx']
+MODULES = ['PyDBMLProofs.Props.C03', 'PyDBMLProofs.Props.C03Read', 'PyDBMLProofs.Props.C04Read', 'PyDBMLProofs.Props.C03Script', 'PyDBMLProofs.Props.C03Index', 'PyDBMLProofs.Props.C03ScriptIx', 'PyDBMLProofs.Props.C03Comment']
 
 
 def kf_replay(f):
@@ -103,6 +103,7 @@ def part_reader(ctx, drv):
                      detail={'expected': exp, 'read': got}, sql=r[1])
     part_script(ctx, drv)
     part_index(ctx, drv)
+    part_comment(ctx, drv)
 
 
 INDEX_NAMES = [None, None, '', 'idx', 'by name', 'ix-1', "o'k"]
@@ -187,6 +188,75 @@ def part_index(ctx, drv):
                          detail={'in db.sql': lines, 'index.sql': stmts})
         else:
             ctx.fail('db.sql raises', case, detail=r['db'][1])
+
+
+NOTE_TEXTS = [None, None, 'a note', "it's", 'semi; colon', 'two  blanks', 'ünï 日本', '"double"', "'", 'x' * 60]
+
+
+def gen_comment_spec(rng):
+    """tables in the default schema with one-line notes on tables and columns (COMMENT ON statements)"""
+    tables = [t for t in gen_reader_spec(rng)]
+    seen = set()
+    out = []
+    for t in tables:
+        if t['name'] in seen:
+            continue
+        seen.add(t['name'])
+        t['schema'] = 'public'
+        t['note'] = rng.choice(NOTE_TEXTS)
+        for c in t['columns']:
+            c['note'] = rng.choice(NOTE_TEXTS)
+        out.append(t)
+    return out
+
+
+def comment_expect(tables):
+    out = []
+    for t in tables:
+        if t['note']:
+            out.append({'entity': 'TABLE', 'path': [t['name']], 'text': t['note'].replace("'", '"')})
+        for c in t['columns']:
+            if c['note']:
+                out.append({'entity': 'COLUMN', 'path': [t['name'], c['name']], 'text': c['note'].replace("'", '"')})
+    return out
+
+
+def comment_job(tables):
+    from pydbml import Database
+    from pydbml.classes import Table, Column
+    db = Database()
+    for t in tables:
+        tb = Table(t['name'], schema=t['schema'], note=t['note'])
+        for c in t['columns']:
+            tb.add_column(Column(c['name'], c['type'], pk=c['pk'], note=c['note']))
+        db.add(tb)
+    try:
+        return ['ok', db.sql]
+    except Exception as e:      # noqa
+        return ['exc', type(e).__name__]
+
+
+def part_comment(ctx, drv):
+    n = 150 if ctx.tier == 'quick' else 1500
+    specs = [gen_comment_spec(ctx.rng) for _ in range(n)]
+    res = core.pmap(comment_job, specs)
+    lines = [[l for l in r[1].split('\n') if l.startswith('COMMENT ON ')] if r[0] == 'ok' else [] for r in res]
+    flat = [(si, k) for si, ls in enumerate(lines) for k in range(len(ls))]
+    read = drv.ask_many({'op': 'readcomment', 'text': lines[si][k]} for si, k in flat)
+    got = {}
+    for (si, k), m in zip(flat, read):
+        got.setdefault(si, []).append(m.get('ok'))
+    for si, (tables, r) in enumerate(zip(specs, res)):
+        ctx.case(core.h(['comment-on', tables]), True)
+        case = {'op': 'readcomment', 'tables': tables}
+        if r[0] != 'ok':
+            ctx.fail('db.sql of tables with notes raises', case, detail=r[1])
+            continue
+        exp = comment_expect(tables)
+        ctx.count('comment-reader:statements', len(exp))
+        if got.get(si, []) != exp:
+            ctx.fail('the proved COMMENT ON reader does not read from db.sql one statement per note with the note text '
+                     '(C03Comment.read_render_comment_table / _column)', case, detail={'expected': exp, 'read': got.get(si, [])}, sql=r[1])
 
 
 ENUM_ITEMS = ['new', 'done', 'in progress', "it's", 'a,', 'x', 'ÜBER', '1', 'with "quotes"']
@@ -317,6 +387,16 @@ def main(tier, seed):
 def replay(path):
     import json
     c = json.load(open(path)).get('case', {})
+    if c.get('op') == 'readcomment':
+        from harness.driver import Driver
+        r = comment_job(c['tables'])
+        print('impl sql:', r)
+        exp = comment_expect(c['tables'])
+        with Driver() as d:
+            got = [d.ask({'op': 'readcomment', 'text': l}).get('ok') for l in (r[1].split('\n') if r[0] == 'ok' else []) if l.startswith('COMMENT ON ')]
+        print('read    :', got)
+        print('expected:', exp)
+        return 0 if got == exp else 1
     if c.get('op') == 'readindex':
         from harness.driver import Driver
         r = index_job(c['tables'])
